@@ -57,7 +57,23 @@ def build_state(c):
         instr.append(pq.DistinguishableNumberState(s, particle_overlap=fr(ov)))
     allm = tuple(range(d))
     b = c["build"]
-    if b["kind"] == "interferometer":
+    if b["kind"] == "sequence":
+        # an explicit instruction sequence; mode labels are the user's (original) labels
+        for ins in b["program"]:
+            ms = tuple(ins["modes"])
+            if ins["op"] == "U":
+                instr.append(pq.Interferometer(cmat(ins["M"])).on_modes(*ms))
+            elif ins["op"] == "uniform_loss":
+                instr.append(pq.UniformLoss(transmissivity=fr(ins["tau"])).on_modes(*ms))
+            elif ins["op"] == "loss":
+                instr.append(pq.Loss(transmissivity=fr(ins["tau"])).on_modes(*ms))
+            elif ins["op"] == "lossy_interferometer":
+                instr.append(pq.LossyInterferometer(cmat(ins["M"])).on_modes(*ms))
+            elif ins["op"] == "ps":
+                instr.append(pq.PostSelectPhotons(photon_counts=tuple(ins["counts"])).on_modes(*ms))
+            else:
+                raise ValueError(ins["op"])
+    elif b["kind"] == "interferometer":
         instr.append(pq.Interferometer(cmat(b["U"])).on_modes(*allm))
     elif b["kind"] == "lossy_interferometer":
         instr.append(pq.LossyInterferometer(cmat(b["T"])).on_modes(*allm))
@@ -143,6 +159,20 @@ def run_dilation(c):
     return {"id": c["id"], "probs": res}
 
 
+def run_seq_dilation(c):
+    """An instruction sequence with every loss replaced by a unitary coupling to fresh
+    environment modes, on PureFockSimulator; post-selection is applied by the caller."""
+    mt = c["m_total"]
+    s = list(c["s"]) + [0] * (mt - len(c["s"]))
+    n = sum(s)
+    instr = [pq.StateVector(s)]
+    for ins in c["program"]:
+        instr.append(pq.Interferometer(cmat(ins["M"])).on_modes(*ins["modes"]))
+    st = pq.PureFockSimulator(d=mt, config=pq.Config(cutoff=n + 1)).execute(pq.Program(instructions=instr)).state
+    return {"id": c["id"], "probs": [[[int(v) for v in k], float(p)] for k, p in st.fock_probabilities_map.items()
+                                     if sum(k) == n and p != 0.0]}
+
+
 def bookkeeping(req):
     out = {}
     out["map_to_original"] = [
@@ -174,6 +204,7 @@ def main():
     req = json.load(sys.stdin)
     out = {"cases": [run_case(c) for c in req.get("cases", [])]}
     out["dilations"] = [guarded(lambda c=c: run_dilation(c)) for c in req.get("dilations", [])]
+    out["seq_dilations"] = [guarded(lambda c=c: run_seq_dilation(c)) for c in req.get("seq_dilations", [])]
     out["book"] = bookkeeping(req.get("book", {}))
     print(json.dumps(out))
 
